@@ -103,10 +103,11 @@ pub fn enumerate(prog: &Program, weak_sc: bool, strong_rs: bool, budget: u64) ->
     enumerate_opt(prog, weak_sc, strong_rs, false, budget)
 }
 
-/// `op_fences`: additionally require that the order RC11 imposes on SeqCst fences (psc restricted
-/// to fences) is compatible with some execution order, i.e. `po ∪ rf ∪ psc_F` is acyclic. loom
-/// executes operations in one global order and orders SeqCst fences by that order, so it can only
-/// produce such executions (recorded finding F12).
+/// `op_fences`: additionally require that the order RC11 imposes on SeqCst fences and accesses
+/// (psc) is compatible with some execution order, i.e. `po ∪ rf ∪ psc` is acyclic. loom executes
+/// operations in one global order and orders SeqCst fences (global clock) and SeqCst accesses
+/// (a SeqCst load never reads a SeqCst store older than the newest executed one) by that order,
+/// so it can only produce such executions (recorded finding F12).
 pub fn enumerate_opt(prog: &Program, weak_sc: bool, strong_rs: bool, op_fences: bool, budget: u64) -> AxResult {
     let mut evs: Vec<Ev> = vec![];
     let nlocs = prog.n_atomics();
@@ -456,10 +457,10 @@ pub fn enumerate_opt(prog: &Program, weak_sc: bool, strong_rs: bool, op_fences: 
                         if !acyclic(&psc) {
                             break 'thismo;
                         }
-                        if op_fences && fsc_mask.count_ones() >= 2 {
-                            let psc_f: Rel =
-                                (0..n).map(|i| if is_sc_fence(i) { (hb[i] | heh[i]) & fsc_mask & !(1 << i) } else { 0 }).collect();
-                            let exec_order = union2(&union2(&base, &rfrel), &psc_f);
+                        if op_fences {
+                            // the order RC11 imposes on SeqCst events must be compatible with one
+                            // global execution order that also extends po and rf
+                            let exec_order = union2(&union2(&base, &rfrel), &psc);
                             if !acyclic(&exec_order) {
                                 break 'thismo;
                             }
@@ -632,15 +633,27 @@ pub struct Bracket {
     pub a: AxResult,
     pub u: AxResult,
     /// `a` restricted to executions whose SeqCst-fence order is compatible with an execution order
-    /// (`None` when the program has fewer than two SeqCst fences: then it equals `a`)
+    /// (`None` when the program has fewer than two SeqCst events: then it equals `a`)
     pub a_op: Option<AxResult>,
 }
 
 pub fn bracket(prog: &Program, budget: u64) -> Bracket {
-    let nf = prog.count(|o| matches!(o, Op::Fence { o: MO::Sc }));
+    let nsc = prog.count(|o| {
+        matches!(
+            o,
+            Op::Fence { o: MO::Sc }
+                | Op::Load { o: MO::Sc, .. }
+                | Op::Store { o: MO::Sc, .. }
+                | Op::Swap { o: MO::Sc, .. }
+                | Op::FetchAdd { o: MO::Sc, .. }
+                | Op::Cas { s: MO::Sc, .. }
+                | Op::Cas { f: MO::Sc, .. }
+                | Op::Await { o: MO::Sc, .. }
+        )
+    });
     Bracket {
         a: enumerate(prog, false, true, budget),
         u: enumerate(prog, true, false, budget),
-        a_op: if nf >= 2 { Some(enumerate_opt(prog, false, true, true, budget)) } else { None },
+        a_op: if nsc >= 2 { Some(enumerate_opt(prog, false, true, true, budget)) } else { None },
     }
 }
